@@ -9,6 +9,9 @@ import numpy as np
 from nssverif import use_repo, par
 from nssverif.f64 import bits
 from nssverif.kit import PropertyRun
+from nssverif.bufs import Reuse
+
+BUF = Reuse()
 from nssverif.pipeline import make_config, quiet_progress
 
 
@@ -83,7 +86,7 @@ def _eas_batch(eas, ev, beta, alt, E, lat, lon, A, QE, thr, Z, dask):
         eas.CphotAng.run = logged
         try:
             with dask.config.set(scheduler="synchronous"):
-                pe, ce = eas(beta.copy(), alt.copy(), E.copy(), lat.copy(), lon.copy())
+                pe, ce = eas(BUF("b", beta), BUF("a", alt), BUF("E", E), BUF("la", lat), BUF("lo", lon))
         finally:
             eas.CphotAng.run = orig
         reached = {}
